@@ -64,6 +64,11 @@ impl Rng {
         self.fill(&mut v);
         v
     }
+    /// random bytes of a random length in lo..=hi
+    pub fn blob(&mut self, lo: usize, hi: usize) -> Vec<u8> {
+        let n = lo + self.usize(hi - lo + 1);
+        self.bytes(n)
+    }
     pub fn array<const N: usize>(&mut self) -> [u8; N] {
         let mut v = [0u8; N];
         self.fill(&mut v);
